@@ -169,7 +169,8 @@ func (g *schemaGen) fieldReq(parent string, ftype string, args []ArgSpec) []stri
 func (g *schemaGen) genField(parent string, name string) FieldSpec {
 	t := wrap(g.r, g.outputBase(), true)
 	args := g.genArgs()
-	return FieldSpec{Name: name, Type: t, Args: args, Req: g.fieldReq(parent, t, args)}
+	// deprecation is drawn independently of the required features: a field can be both
+	return FieldSpec{Name: name, Type: t, Args: args, Req: g.fieldReq(parent, t, args), Deprecated: g.r.Chance(1, 5)}
 }
 
 func genSpec(r *hx.Rand) *Spec {
@@ -254,6 +255,9 @@ func genSpec(r *hx.Rand) *Spec {
 		case "enum":
 			for j, n := 0, r.Range(1, 3); j < n; j++ {
 				t.Values = append(t.Values, fmt.Sprintf("V%d", j))
+				if r.Chance(1, 4) {
+					t.DepValues = append(t.DepValues, fmt.Sprintf("V%d", j))
+				}
 			}
 		case "input":
 			for j, n := 0, r.Range(1, 3); j < n; j++ {
@@ -303,7 +307,7 @@ func genSpec(r *hx.Rand) *Spec {
 					if hasField(t, f.Name) {
 						continue
 					}
-					nf := FieldSpec{Name: f.Name, Type: f.Type, Args: append([]ArgSpec(nil), f.Args...), Req: append([]string(nil), f.Req...)}
+					nf := FieldSpec{Name: f.Name, Type: f.Type, Args: append([]ArgSpec(nil), f.Args...), Req: append([]string(nil), f.Req...), Deprecated: f.Deprecated != r.Chance(1, 6)}
 					switch {
 					case g.careless("implreq"):
 						nf.Req = g.randReq()
@@ -350,7 +354,7 @@ func genSpec(r *hx.Rand) *Spec {
 		if (t.Kind == "object" || t.Kind == "interface" || t.Kind == "union") && t.Name != "Query" && t.Name != "Mutation" && t.Name != "Subscription" && r.Chance(3, 4) {
 			ft := wrap(r, t.Name, true)
 			args := g.genArgs()
-			q.Fields = append(q.Fields, FieldSpec{Name: "get" + t.Name, Type: ft, Args: args, Req: g.fieldReq("Query", ft, args)})
+			q.Fields = append(q.Fields, FieldSpec{Name: "get" + t.Name, Type: ft, Args: args, Req: g.fieldReq("Query", ft, args), Deprecated: r.Chance(1, 8)})
 		}
 	}
 	// connections
@@ -399,7 +403,7 @@ func genSpec(r *hx.Rand) *Spec {
 					req = union(req, g.randReq())
 				}
 			}
-			host.Fields = append(host.Fields, FieldSpec{Name: fmt.Sprintf("conn%d", c), Req: req, Conn: &ConnSpec{Prefix: fmt.Sprintf("Cn%d", c), Node: node, Impl: impl}})
+			host.Fields = append(host.Fields, FieldSpec{Name: fmt.Sprintf("conn%d", c), Req: req, Deprecated: r.Chance(1, 5), Conn: &ConnSpec{Prefix: fmt.Sprintf("Cn%d", c), Node: node, Impl: impl}})
 		}
 	}
 	return g.spec
